@@ -306,6 +306,9 @@ func random(rng *rand.Rand, n int) []Op {
 		k := rng.Intn(100)
 		if len(lens) == 0 || k < 12 {
 			m := rng.Intn(5)
+			if rng.Intn(5) == 0 {
+				m = 5 + rng.Intn(maxLen-4) // long argument lists too (New is variadic: any number of elements)
+			}
 			o = Op{Op: "new", Spare: rng.Intn(4), Xs: []int64{}}
 			for j := 0; j < m; j++ {
 				o.Xs = append(o.Xs, int64(rng.Intn(9)+1))
